@@ -15,6 +15,7 @@ import os
 import re
 import shutil
 import tempfile
+import time
 
 import common
 from common import Check, sx
@@ -247,20 +248,46 @@ class Sandbox:
             atexit.register(shutil.rmtree, self.dir, True)
         return os.path.join(self.dir, "systems.txt")
 
-    def apply(self, fsx):
+    def apply(self, fsx, mode="replace"):
+        """edit kinds (which component of the stat version (ctime, mtime, dev, ino, size) stays the same):
+          replace          new inode + rename, new mtime: ctime, mtime, ino (and usually size) change
+          inplace_restore  overwrite the same inode, then os.utime back to the old atime/mtime (cp -p, rsync --inplace -t):
+                           ino and mtime stay; with same-length content also size stays - only ctime changes
+          replace_restore  new inode + rename, then os.utime back to the old mtime: mtime (and size for same-length
+                           content) stay; ino and ctime change
+        In every kind the kernel advances ctime, so "every change of the file changes its stat version" holds."""
         p = self.path()
         if fsx[0] == "missing":
             if os.path.exists(p):
                 os.unlink(p)
             return
         data = fsx[1].encode("utf-8") if fsx[0] == "text" else b"a;1\n\xff\xfe\n"
-        # write to a new inode and rename: size, inode, ctime and mtime all change
+        old = os.stat(p) if os.path.exists(p) else None
+        if old is not None and mode == "inplace_restore":
+            with open(p, "r+b") as fh:
+                fh.write(data)
+                fh.truncate(len(data))
+            self.restore(p, old)
+            return
+        # write to a new inode and rename
         tmp = p + ".new"
         with open(tmp, "wb") as fh:
             fh.write(data)
         self.tick += 1_000_000_000
         os.utime(tmp, ns=(self.tick, self.tick))
         os.replace(tmp, p)
+        if old is not None and mode == "replace_restore":
+            self.restore(p, old)
+
+    @staticmethod
+    def restore(p, old):
+        # utime itself stamps ctime; repeat until the (possibly coarse) ctime clock has moved on
+        for _ in range(500):
+            os.utime(p, ns=(old.st_atime_ns, old.st_mtime_ns))
+            if os.stat(p).st_ctime_ns != old.st_ctime_ns:
+                return
+            time.sleep(0.002)
+        raise RuntimeError("ctime did not advance")
 
 
 SB = Sandbox()
@@ -308,6 +335,28 @@ class C14(Check):
         if r < 0.18:
             return ("bad",)
         return ("text", self.contents(f, rng, rng.choice([0, 1, 2, 3, 3, 4, 5, 6])))
+
+    def same_size_variant(self, f, rng, stt):
+        """another content of exactly the same byte length: one line replaced by a pool line of equal length"""
+        if stt[0] != "text":
+            return None
+        parts = re.split("(\r\n|\r|\n)", stt[1])
+        idx = [i for i in range(0, len(parts), 2)
+               if any(len(x.encode()) == len(parts[i].encode()) and x != parts[i] for x in f["lines"])]
+        if not idx:
+            return None
+        i = rng.choice(idx)
+        parts[i] = rng.choice([x for x in f["lines"] if len(x.encode()) == len(parts[i].encode()) and x != parts[i]])
+        return ("text", "".join(parts))
+
+    def random_edit(self, f, rng, cur):
+        mode = rng.choice(["replace", "replace", "replace", "inplace_restore", "inplace_restore", "replace_restore"])
+        stt = None
+        if mode != "replace" and rng.random() < 0.75:
+            stt = self.same_size_variant(f, rng, cur)
+        if stt is None:
+            stt = self.random_state(f, rng)
+        return ("edit", stt) if mode == "replace" else ("edit", stt, mode)
 
     def random_call(self, f, rng):
         if rng.random() < 0.45:
@@ -362,6 +411,27 @@ class C14(Check):
             txt = "a" + " " * pad + "1\r\n" + "b x\r\n"
             yield {"fam": "numbered", "cache": True, "ffm": False, "mis": "error", "dup": "error",
                    "init": ("text", txt), "hist": [("get", "a.d"), ("get", "b.d")]}
+        # 2b. edits that keep parts of the stat version: same-size in-place rewrite with restored mtime (only ctime
+        #     changes), same size + same mtime on a new inode, different size with restored mtime
+        for fam in list(FAMILIES)[:3]:
+            f = FAMILIES[fam]
+            bat = self.battery(f)
+            for fl in self.flags():
+                if not fl["cache"] and rng.random() < 0.7:
+                    continue
+                for _rep in range(2 if quick else 12):
+                    cur = ("text", self.contents(f, rng, rng.choice([2, 3, 4])))
+                    case = dict(fl, fam=fam, init=cur, omit=rng.random() < 0.5)
+                    h = list(rng.sample(bat, 3))
+                    for mode in rng.sample(["inplace_restore", "replace_restore", "inplace_restore", "replace"], 3):
+                        nxt = self.same_size_variant(f, rng, cur) if rng.random() < 0.8 else None
+                        if nxt is None:
+                            nxt = ("text", self.contents(f, rng, rng.choice([1, 2, 3, 5])))
+                        h.append(("edit", nxt, mode))
+                        cur = nxt
+                        h.extend(rng.sample(bat, 3))
+                    case["hist"] = h
+                    yield case
         # 3. random histories: <= 6 edits interleaved with calls
         n = 5000 if quick else 60000
         fams = list(FAMILIES)
@@ -374,12 +444,14 @@ class C14(Check):
                 case["alt"] = True
                 f = fam_of(case)
             case["init"] = self.random_state(f, rng)
+            cur = case["init"]
             h = []
             nedits = rng.randrange(0, 7)
             for _e in range(nedits):
                 for _c in range(rng.choice([0, 1, 1, 2, 3])):
                     h.append(self.random_call(f, rng))
-                h.append(("edit", self.random_state(f, rng)))
+                h.append(self.random_edit(f, rng, cur))
+                cur = h[-1][1]
             for _c in range(rng.choice([1, 2, 3])):
                 h.append(self.random_call(f, rng))
             case["hist"] = h
@@ -393,7 +465,7 @@ class C14(Check):
         out = []
         for stp in c["hist"]:
             if stp[0] == "edit":
-                SB.apply(stp[1])
+                SB.apply(stp[1], stp[2] if len(stp) > 2 else "replace")
                 continue
             a = call_source(src, stp)
             b = call_source(TF.get_instance(make_config(c, path)), stp)
@@ -472,7 +544,7 @@ class C14(Check):
                 "config": {k: c[k] for k in ("cache", "ffm", "mis", "dup")}, "defaults_omitted": bool(c.get("omit")),
                 "regular_expression": fam_of(c)["re"], "regular_expression_ignore": fam_of(c)["ign"],
                 "system_id": repr(fam_of(c)["sid"]), "variables": [repr(v) for v in fam_of(c)["vars"]],
-                "init": list(c["init"]), "hist": [list(s) if s[0] != "edit" else ["edit", list(s[1])] for s in c["hist"]]}
+                "init": list(c["init"]), "hist": [list(s) if s[0] != "edit" else ["edit", list(s[1])] + list(s[2:]) for s in c["hist"]]}
 
     def shrink(self, c):
         h = c["hist"]
@@ -492,7 +564,7 @@ class C14(Check):
         for i, stp in enumerate(h):
             if stp[0] == "edit":
                 for s2 in smaller(stp[1]):
-                    yield dict(c, hist=h[:i] + [("edit", s2)] + h[i + 1:])
+                    yield dict(c, hist=h[:i] + [("edit", s2) + tuple(stp[2:])] + h[i + 1:])
         if c["init"][0] != "missing":
             yield dict(c, init=("missing",))
 
